@@ -313,7 +313,7 @@ class Expander(object):
         return None
 
     # -------------------------------------------------------------- expansion
-    def _instantiate(self, caller, fn, call, drop_self):
+    def _instantiate(self, caller, fn, call, drop_self, target_name=None):
         """-> (binding statements, body copy) or None"""
         if not _simple_def(fn):
             return None
@@ -380,8 +380,10 @@ class Expander(object):
             if p in stored:
                 # rebound by the helper: may keep the caller's name when it is
                 # passed that very variable and the caller never reads it again
+                # ... or when the call's result is assigned to that very
+                # variable (`x = h(x)`): every path ends in binding it anyway
                 if isinstance(a, ast.Name) and a.id == p and \
-                        _dead_after(caller, call, p):
+                        (p == target_name or _dead_after(caller, call, p)):
                     keep.add(p)
                 continue
             if isinstance(a, ast.Constant):
@@ -489,7 +491,10 @@ class Expander(object):
                 post = [new_if]
         if call is None:
             return None
-        inst = self._instantiate(fi.node, call[1][0], call[0], call[1][1])
+        tname = s.targets[0].id if isinstance(s, ast.Assign) and \
+            len(s.targets) == 1 and isinstance(s.targets[0], ast.Name) else None
+        inst = self._instantiate(fi.node, call[1][0], call[0], call[1][1],
+                                 target_name=tname)
         if not inst:
             return None
         binds, body = inst
